@@ -8,6 +8,14 @@ from .common import *
 _CATALOG = {}
 
 
+def is_abstract(c):
+    """the harness's own notion of an unusable class: abstract methods left, or a NotImplemented cutter/signature
+    placeholder (independent of moclo._utils.isabstract, which is code under test)"""
+    if inspect.isabstract(c):
+        return True
+    return any(getattr(c, a, None) is NotImplemented for a in ("cutter", "signature"))
+
+
 def catalog(st):
     """[(kit, name, cls, role, pattern)] for every concrete module/vector class of the five kits,
     enumerated from the stack's own module objects (i.e. from /repo's current source)"""
@@ -15,7 +23,14 @@ def catalog(st):
     if c is not None:
         return c
     out = []
-    isabstract = st.mod("moclo._utils").isabstract
+    import inspect as _inspect
+
+    def isabstract(c):
+        # the harness's own notion of a usable class (independent of moclo._utils.isabstract, which is code under test)
+        if _inspect.isabstract(c):
+            return True
+        return any(getattr(c, a, None) is NotImplemented for a in ("cutter", "signature"))
+
     from symx.loader import KITS
 
     for kit in KITS:
